@@ -4,6 +4,7 @@
 mod cfgspace;
 mod checks;
 mod common;
+mod interpose;
 mod xs;
 
 use common::{Args, Coverage, Ctx, load_replay, machinery_error};
@@ -12,11 +13,14 @@ fn main() {
     let argv: Vec<String> = std::env::args().skip(1).collect();
     let args = Args::parse(&argv);
     common::quiet_panics();
+    common::thread_init();
     let ctx = Ctx::new(args.clone());
     let replay_case = args.replay.as_ref().map(load_replay);
     let cov: Coverage = match (args.property.as_str(), &replay_case) {
         ("C04", None) => checks::c04::run(&ctx),
         ("C04", Some(r)) => checks::c04::replay(&ctx, &r["case"]),
+        ("C12", None) => checks::c12::run(&ctx),
+        ("C12", Some(r)) => checks::c12::replay(&ctx, &r["case"]),
         ("C05", None) => checks::cfgstate::run_c05(&ctx),
         ("C06", None) => checks::cfgstate::run_c06(&ctx),
         ("C07", None) => checks::cfgstate::run_c07a(&ctx),
